@@ -98,8 +98,17 @@ def has_empty_aggregate(spec, is_root=True):
     return any([has_empty_aggregate(k, False) for k in kids])
 
 
+def leaf_named_like_parent(spec):
+    """a data element carrying the name of the aggregate that encloses it: no OFX aggregate declares such a child, and
+    without end tags the notation itself cannot tell the leaf's optional end tag from its parent's"""
+    tag, text, kids = spec
+    return any([(k[1] is not None and k[0] == tag) or leaf_named_like_parent(k) for k in kids])
+
+
 def h_wire(ctx, shape, major, nchars, tagmode, rest_chars=1):
     root, spec = build_tree(ctx, shape, nchars, tagmode, rest_chars)
+    if leaf_named_like_parent(spec):
+        return                      # outside the documents the property ranges over (see META assumptions)
     if major == 1:
         version = ctx.int("version", 100, 199)          # every three-digit 1xx version
     else:
